@@ -98,7 +98,8 @@ def execute(cfg, seed, chooser, tier, parallel=True):
     fr = FakeRay(chooser, ncpu=cfg["ncpu"], max_timeouts=MAX_TIMEOUTS[tier]) if parallel else None
     with tmpdir("wbmc_c12_") as d:
         kw = dict(adpt_num_iter=cfg["niter"], adpt_mesh=2, adpt_fac=1, use_irred_kpt=False, symmetrize=False,
-                  fout_name=os.path.join(d, "res"), file_Klist_path=os.path.join(d, "klist"), k_batch=cfg.get("k_batch", 50))
+                  fout_name=os.path.join(d, "res"), file_Klist_path=os.path.join(d, "klist"), k_batch=cfg.get("k_batch", 50),
+                  print_progress_step_time=0)      # the progress line is formatted at every wait, not only after 5 s of real time
         if parallel:
             with fake_ray(fr):
                 res = wb.run(system, grid, calcs, parallel=True, **kw)
